@@ -49,7 +49,7 @@ def transceiver_strategy(name, nmodes_max=5, with_penalties=True):
         if with_penalties and draw(st.integers(0, 2)) == 0:
             pens = []
             if draw(st.booleans()):
-                hi = draw(st.sampled_from([4e3, 18e3, 40e3, 100e3, 1e3]))
+                hi = draw(st.sampled_from([4e3, 18e3, 40e3, 100e3, 1e3, 1.4e3, 2.7e3, 3.4e3, 5e3, 6.7e3, 8.4e3, 10e3, 13.4e3]))
                 pens += [{'chromatic_dispersion': hi / 2, 'penalty_value': 0.5},
                          {'chromatic_dispersion': hi, 'penalty_value': draw(st.sampled_from([1.0, 0.5, 2.0]))}]
                 if draw(st.integers(0, 3)) == 0:
@@ -138,6 +138,10 @@ def equipment_strategy(draw, flavour):
     if draw(st.integers(0, 2)) == 0:
         eq['Fiber'].append({'type_variety': 'NEGD', 'dispersion': draw(st.sampled_from([-1.0e-05, -2.0e-05, -4e-06])),
                             'effective_area': 7.2e-11, 'pmd_coef': 1.265e-15})
+    if draw(st.integers(0, 2)) == 0:
+        # a fibre type with a dispersion slope: accumulated CD (and CD penalties) then differ from channel to channel
+        eq['Fiber'].append({'type_variety': 'SLOPE', 'dispersion': 1.67e-05, 'dispersion_slope': 67.0,
+                            'effective_area': 8.3e-11, 'pmd_coef': 1.265e-15})
     # transceivers: stock ones kept, plus generated libraries
     ntrx = draw(st.integers(1, 2))
     for i in range(ntrx):
@@ -190,7 +194,9 @@ def topology_strategy(draw, flavour, eqpt):
         if a != b and (min(a, b), max(a, b)) not in [(min(x), max(x)) for x in links]:
             links.append((a, b))
     fiber_types = [f['type_variety'] for f in eqpt['Fiber']]
-    if 'NEGD' in fiber_types and draw(st.booleans()):
+    if 'SLOPE' in fiber_types and draw(st.booleans()):
+        fiber_types = ['SLOPE', 'SLOPE', 'SLOPE', 'SSMF']
+    elif 'NEGD' in fiber_types and draw(st.booleans()):
         # a network built mostly from the dispersion-compensating type: accumulated dispersion becomes negative
         fiber_types = ['NEGD', 'NEGD', 'NEGD', 'SSMF']
     elements, connections = [], []
@@ -211,7 +217,12 @@ def topology_strategy(draw, flavour, eqpt):
             a, b = sites[x], sites[y]
             nf = draw(st.integers(1, 3))
             chain = []
-            lead = draw(st.integers(0, 9))
+            # a short link without any amplifier: ROADM-Fused-fibre-Fused-ROADM (never the first link of the world: a
+            # network without a single amplifier is outside what the spectrum code supports)
+            passive = (ia, ib) != links[0] and draw(st.integers(0, 6)) == 0
+            lead = 2 if passive else draw(st.integers(0, 9))
+            if passive:
+                nf = 1
             if lead in (0, 1):
                 chain.append(draw(user_amp_strategy(f'booster {a}{b}')))
             elif lead == 2:
@@ -241,7 +252,12 @@ def topology_strategy(draw, flavour, eqpt):
                                       'params': {'loss': draw(st.sampled_from([1, 0, 0.5, 2]))}})
                     elif j == 1:
                         chain.append(draw(user_amp_strategy(f'ila {a}{b}-{k}')))
-            if draw(st.integers(0, 4)) == 0:
+            if passive:
+                chain[-1]['params']['length'] = draw(st.sampled_from([1.0, 5.0, 20.0, 0.05]))
+                chain[-1]['params'].pop('lumped_losses', None)
+                chain.append({'uid': f'tail fused {a}{b}', 'type': 'Fused', 'metadata': _loc(x),
+                              'params': {'loss': draw(st.sampled_from([0, 1]))}})
+            elif draw(st.integers(0, 4)) == 0:
                 chain.append(draw(user_amp_strategy(f'preamp {a}{b}')))
             elements.extend(chain)
             uids = [f'roadm {a}'] + [c['uid'] for c in chain] + [f'roadm {b}']
